@@ -88,7 +88,7 @@ def tr_scenario(name, r):
         evl = [x.strip() for x in evs.group(1).split(',')] if evs else []
         if 'abort' in evl and 'save' not in evl and 'DISCARD-by-user-code' not in evl and not any(c.get('disc') or c.get('forced') for c in r['scenario']['calls']):
             p['sampling_rate'] = 0.0
-        if 'recorder_already_idle_when_the_sampling_decision_is_taken' in name and not any(c.get('forced') for c in r['scenario']['calls']):
+        if 'idle_after_a_failure_inside_the_sampling_decision' in name and not any(c.get('forced') for c in r['scenario']['calls']):
             # the clause is about a failure INSIDE the decision: give the class a rate the decision cannot compare (text taken from configuration)
             p['sampling_rate'] = '0.25'
         if p:
@@ -188,7 +188,7 @@ def evaluate(prop, name, scn, o, rec=None):
         holds = transparent(o)
     elif 'finalised_exactly_once' in name:
         ev = o['cassette_events']; holds = ev.count('create') == 1 and ev.count('save') + ev.count('abort') == 1
-    elif 'idle_after' in name or 'recorder_already_idle_when_the_sampling_decision_is_taken' in name:
+    elif 'idle_after' in name or 'idle_after_a_failure_inside_the_sampling_decision' in name:
         holds = bool(o['idle'])
     elif 'no_key_beyond' in name and o.get('saved_meta') is not None:
         # framework keys all carry the reserved prefix (U5: user metadata does not use it)
